@@ -50,6 +50,11 @@ pub enum EvB {
     /// rcv-settle-mode FIRST: the scripted sender settles deliveries first..=last of its own accord, BEFORE the
     /// application has applied an outcome (a sender may settle whenever it likes): disposition(role=sender, settled=true)
     SettleEarly(usize, usize),
+    /// rcv-settle-mode SECOND, a race of two tasks: the sender's settling disposition for first..=last is on the wire
+    /// (not yet read) when the application calls *_all(deliveries); the call is parked at the marked point inside
+    /// `ReceiverLink::dispose_all` (between its filter and its update of the unsettled map, cfg fe2o3_amqp_verif) until
+    /// every other task is blocked - "another worker thread ran the session task in this window"
+    RaceAll(Op, Vec<usize>, usize, usize),
 }
 
 impl EvB {
@@ -62,6 +67,7 @@ impl EvB {
             EvB::Settle(a, b) => format!("sender-settles({a}..{b})"),
             EvB::SettleEarly(a, b) if a == b => format!("sender-settles-unasked({a})"),
             EvB::SettleEarly(a, b) => format!("sender-settles-unasked({a}..{b})"),
+            EvB::RaceAll(op, v, a, b) => format!("{op:?}_all({v:?})-racing-sender-settles({a}..{b})"),
         }
     }
 }
@@ -87,6 +93,7 @@ pub fn core_alphabet_b(rcv: Rcv) -> Vec<EvB> {
     ];
     if rcv == Rcv::Second {
         v.extend([EvB::Settle(0, 0), EvB::Settle(1, 2), EvB::Settle(0, 2), EvB::Settle(0, 4)]);
+        v.extend([EvB::RaceAll(Op::Acc, vec![0, 1], 0, 0), EvB::RaceAll(Op::Acc, vec![0, 1, 2], 1, 1)]);
     } else {
         v.extend([EvB::SettleEarly(0, 0), EvB::SettleEarly(1, 2)]);
     }
@@ -121,12 +128,35 @@ pub fn alphabet_b(rcv: Rcv) -> Vec<EvB> {
         v.push(EvB::Settle(0, 2));
         v.push(EvB::Settle(3, 4));
         v.push(EvB::Settle(0, 4));
+        v.push(EvB::RaceAll(Op::Acc, vec![0, 1], 0, 0));
+        v.push(EvB::RaceAll(Op::Acc, vec![0, 1, 2], 1, 1));
+        v.push(EvB::RaceAll(Op::Rel, vec![2, 0], 0, 2));
     } else {
         v.push(EvB::SettleEarly(0, 0));
         v.push(EvB::SettleEarly(1, 2));
         v.push(EvB::SettleEarly(2, 4));
     }
     v
+}
+
+/// the scripted sender's settling disposition for deliveries a..=b: it echoes the outcome when that is the same for
+/// the whole range
+fn settling_disposition(base: u32, dls: &[RDl], a: usize, b: usize) -> Disposition {
+    let states: BTreeSet<&String> = (a..=b).filter_map(|k| dls[k].disposed.as_ref()).collect();
+    let echo_state = if states.len() == 1 {
+        let s = states.iter().next().unwrap().as_str();
+        [Op::Acc, Op::Rej, Op::Rel, Op::Mod].into_iter().map(op_state).find(|x| format!("{:?}", x) == s)
+    } else {
+        None
+    };
+    Disposition {
+        role: Role::Sender,
+        first: base.wrapping_add(a as u32),
+        last: if a == b { None } else { Some(base.wrapping_add(b as u32)) },
+        settled: true,
+        state: echo_state,
+        batchable: false,
+    }
 }
 
 fn op_state(op: Op) -> DeliveryState {
@@ -161,10 +191,14 @@ struct RDl {
     disposed_again_after_settlement: bool,
     /// the sender settled it before the receiver said anything (legal in every mode)
     settled_unasked: bool,
+    /// the sender's settling disposition raced a *_all call that named this delivery
+    raced: bool,
 }
 
 #[derive(Debug, Clone, Default)]
 pub struct ObsB {
+    /// executions of the event "*_all racing the sender's settling disposition"
+    pub race_events: usize,
     pub executed: usize,
     pub fails: Vec<(String, String, usize)>,
     pub state_keys: Vec<u64>,
@@ -285,12 +319,21 @@ pub async fn scenario_b(base: u32, rcv: Rcv, events: Vec<EvB>) -> ObsB {
         // deliveries named now that had already been named once after their settlement
         let mut again_before: BTreeSet<usize> = BTreeSet::new();
         match ev {
-            EvB::One(op, _) | EvB::All(op, _) | EvB::Disposer(op, _) => {
+            EvB::One(op, _) | EvB::All(op, _) | EvB::Disposer(op, _) | EvB::RaceAll(op, _, _, _) => {
                 let idxs: Vec<usize> = match ev {
                     EvB::One(_, i) | EvB::Disposer(_, i) => vec![*i],
-                    EvB::All(_, v) => v.clone(),
+                    EvB::All(_, v) | EvB::RaceAll(_, v, _, _) => v.clone(),
                     _ => unreachable!(),
                 };
+                if let EvB::RaceAll(_, _, a, b) = ev {
+                    // the sender may settle what it has learnt the outcome of
+                    if rcv != Rcv::Second || !(*a..=*b).all(|k| dls[k].on_wire && !dls[k].settled) {
+                        break;
+                    }
+                    c.peer.send(ch, Performative::Disposition(settling_disposition(base, &dls, *a, *b)));
+                    obs.race_events += 1;
+                    fe2o3_amqp::verif::set_preempt_hook(Box::new(|label| if label == "receiver-dispose-all-filtered" { 2 } else { 0 }));
+                }
                 let st = op_state(*op);
                 let sdbg = format!("{:?}", st);
                 want_state = Some(sdbg.clone());
@@ -315,10 +358,10 @@ pub async fn scenario_b(base: u32, rcv: Rcv, events: Vec<EvB>) -> ObsB {
                     EvB::One(Op::Rej, k) => drive(&mut c.peer, rx.reject(&deliveries[*k], reject_error()), SHORT).await,
                     EvB::One(Op::Rel, k) => drive(&mut c.peer, rx.release(&deliveries[*k]), SHORT).await,
                     EvB::One(Op::Mod, k) => drive(&mut c.peer, rx.modify(&deliveries[*k], modified()), SHORT).await,
-                    EvB::All(Op::Acc, v) => drive(&mut c.peer, rx.accept_all(v.iter().map(|k| &deliveries[*k])), SHORT).await,
-                    EvB::All(Op::Rej, v) => drive(&mut c.peer, rx.reject_all(v.iter().map(|k| &deliveries[*k]), reject_error()), SHORT).await,
-                    EvB::All(Op::Rel, v) => drive(&mut c.peer, rx.release_all(v.iter().map(|k| &deliveries[*k])), SHORT).await,
-                    EvB::All(Op::Mod, v) => drive(&mut c.peer, rx.modify_all(v.iter().map(|k| &deliveries[*k]), modified()), SHORT).await,
+                    EvB::All(Op::Acc, v) | EvB::RaceAll(Op::Acc, v, _, _) => drive(&mut c.peer, rx.accept_all(v.iter().map(|k| &deliveries[*k])), SHORT).await,
+                    EvB::All(Op::Rej, v) | EvB::RaceAll(Op::Rej, v, _, _) => drive(&mut c.peer, rx.reject_all(v.iter().map(|k| &deliveries[*k]), reject_error()), SHORT).await,
+                    EvB::All(Op::Rel, v) | EvB::RaceAll(Op::Rel, v, _, _) => drive(&mut c.peer, rx.release_all(v.iter().map(|k| &deliveries[*k])), SHORT).await,
+                    EvB::All(Op::Mod, v) | EvB::RaceAll(Op::Mod, v, _, _) => drive(&mut c.peer, rx.modify_all(v.iter().map(|k| &deliveries[*k]), modified()), SHORT).await,
                     EvB::Disposer(Op::Rel, k) => {
                         let d = rx.disposer();
                         drive(&mut c.peer, d.release(&deliveries[*k]), SHORT).await
@@ -349,6 +392,13 @@ pub async fn scenario_b(base: u32, rcv: Rcv, events: Vec<EvB>) -> ObsB {
                         }
                     }
                 }
+                if let EvB::RaceAll(_, _, a, b) = ev {
+                    fe2o3_amqp::verif::set_preempt_hook(Box::new(|_label| vlib::tape::choose(vlib::tape::Kind::Preempt, 3) as u8));
+                    for k in *a..=*b {
+                        dls[k].settled = true;
+                        dls[k].raced = idxs.contains(&k);
+                    }
+                }
             }
             EvB::SettleEarly(a, b) => {
                 if rcv != Rcv::First || (*a..=*b).any(|k| dls[k].settled || dls[k].disposed.is_some()) {
@@ -367,23 +417,7 @@ pub async fn scenario_b(base: u32, rcv: Rcv, events: Vec<EvB>) -> ObsB {
                 if rcv != Rcv::Second || !(*a..=*b).all(|k| dls[k].on_wire) {
                     break;
                 }
-                let states: BTreeSet<&String> = (*a..=*b).filter_map(|k| dls[k].disposed.as_ref()).collect();
-                // the sender's settling disposition echoes the outcome when it is the same for the whole range
-                let echo_state = if states.len() == 1 {
-                    let s = states.iter().next().unwrap().as_str();
-                    [Op::Acc, Op::Rej, Op::Rel, Op::Mod].into_iter().map(op_state).find(|x| format!("{:?}", x) == s)
-                } else {
-                    None
-                };
-                let disp = Disposition {
-                    role: Role::Sender,
-                    first: base.wrapping_add(*a as u32),
-                    last: if a == b { None } else { Some(base.wrapping_add(*b as u32)) },
-                    settled: true,
-                    state: echo_state,
-                    batchable: false,
-                };
-                c.peer.send(ch, Performative::Disposition(disp));
+                c.peer.send(ch, Performative::Disposition(settling_disposition(base, &dls, *a, *b)));
                 for k in *a..=*b {
                     dls[k].settled = true;
                 }
@@ -454,14 +488,14 @@ pub async fn scenario_b(base: u32, rcv: Rcv, events: Vec<EvB>) -> ObsB {
             let extra: Vec<usize> = covered_now.difference(&allowed).copied().collect();
             let named: Vec<usize> = match ev {
                 EvB::One(_, k) | EvB::Disposer(_, k) => vec![*k],
-                EvB::All(_, v) => v.clone(),
+                EvB::All(_, v) | EvB::RaceAll(_, v, _, _) => v.clone(),
                 _ => vec![],
             };
             let settled_again: Vec<usize> = extra.iter().copied().filter(|k| named.contains(k)).collect();
             let others: Vec<usize> = extra.iter().copied().filter(|k| !named.contains(k)).collect();
             if !settled_again.is_empty() {
                 obs.fails.push((
-                    if settled_again.iter().any(|k| dls[*k].settled_unasked) { "receiver-disposition-for-settled-delivery[sender settled unasked]".to_string() } else if settled_again.iter().all(|k| again_before.contains(k)) { "receiver-disposition-for-settled-delivery[after-repeated-dispose]".to_string() } else { "receiver-disposition-for-settled-delivery".to_string() },
+                    if settled_again.iter().any(|k| dls[*k].raced) { "receiver-disposition-for-settled-delivery[*_all raced the sender's settlement]".to_string() } else if settled_again.iter().any(|k| dls[*k].settled_unasked) { "receiver-disposition-for-settled-delivery[sender settled unasked]".to_string() } else if settled_again.iter().all(|k| again_before.contains(k)) { "receiver-disposition-for-settled-delivery[after-repeated-dispose]".to_string() } else { "receiver-disposition-for-settled-delivery".to_string() },
                     format!("after {}: the dispositions of this step cover deliveries {:?}, which are already settled", ev.name(), settled_again),
                     step,
                 ));
@@ -503,7 +537,7 @@ pub async fn scenario_b(base: u32, rcv: Rcv, events: Vec<EvB>) -> ObsB {
                             let held = keys.contains(&dl.tag);
                             if dl.settled && held {
                                 obs.fails.push((
-                                    if dl.settled_unasked { "receiver-retains-settled-delivery[sender settled unasked]".to_string() } else if dl.disposed_again_after_settlement { "receiver-retains-settled-delivery[after-repeated-dispose]".to_string() } else { "receiver-retains-settled-delivery".to_string() },
+                                    if dl.raced { "receiver-retains-settled-delivery[*_all raced the sender's settlement]".to_string() } else if dl.settled_unasked { "receiver-retains-settled-delivery[sender settled unasked]".to_string() } else if dl.disposed_again_after_settlement { "receiver-retains-settled-delivery[after-repeated-dispose]".to_string() } else { "receiver-retains-settled-delivery".to_string() },
                                     format!(
                                         "delivery {k} (id {}) is settled ({}) but the receiver's attach after a non-closing detach + resume still lists it in `unsettled`",
                                         base.wrapping_add(k as u32),
@@ -586,6 +620,7 @@ pub fn part_b(ctx: &Ctx, deadline: Instant, out: &mut Outcome, tot: &mut Totals)
     let max_depth = if ctx.quick() { 3 } else { 5 };
     let collect = Mutex::new(Collect::default());
     let cnt_disp = AtomicU64::new(0);
+    let cnt_race = AtomicU64::new(0);
     let cnt_range = AtomicU64::new(0);
     let cnt_final = AtomicU64::new(0);
     let cnt_entries = AtomicU64::new(0);
@@ -611,6 +646,7 @@ pub fn part_b(ctx: &Ctx, deadline: Instant, out: &mut Outcome, tot: &mut Totals)
                 let evs: Vec<EvB> = h.iter().map(|i| alpha[*i].clone()).collect();
                 let (mut ho, o) = run_history_b(base, rcv, evs.clone());
                 cnt_disp.fetch_add(o.dispositions_seen as u64, Ordering::Relaxed);
+                cnt_race.fetch_add(o.race_events as u64, Ordering::Relaxed);
                 cnt_range.fetch_add(o.range_dispositions_seen as u64, Ordering::Relaxed);
                 cnt_final.fetch_add(o.final_checked as u64, Ordering::Relaxed);
                 cnt_entries.fetch_add(o.attach_unsettled_entries as u64, Ordering::Relaxed);
@@ -646,6 +682,7 @@ pub fn part_b(ctx: &Ctx, deadline: Instant, out: &mut Outcome, tot: &mut Totals)
     }
     collect.into_inner().unwrap().report(out, "receiver side,");
     out.set("b_receiver_dispositions_seen", cnt_disp.load(Ordering::Relaxed));
+    out.set("b_all_calls_raced_by_sender_settlement_at_preempt_point", cnt_race.load(Ordering::Relaxed));
     out.set("b_range_dispositions_seen", cnt_range.load(Ordering::Relaxed));
     out.set("b_detach_resume_inspections", cnt_final.load(Ordering::Relaxed));
     out.set("b_unsettled_entries_seen_in_resume_attach", cnt_entries.load(Ordering::Relaxed));
